@@ -17,10 +17,9 @@
 (* All nodes of the model carry the angles <<0,2,4>> and queries use ang in 0..4 (every    *)
 (* cell in the real status structure spans the bearing of the query: ViewGeom); gradients  *)
 (* are even integers so the interpolation at the five angles is an exact integer.          *)
-(* MUT: "none" | "max_high" (insertion forgets nothing but the shortcut trusts a too-high  *)
-(* maximum: rotation recomputes x's maximum including y's old one) | "skip_left"           *)
-(* (exact walk stops at the key node's left subtree) | "no_succ_fix" (successor swap       *)
-(* without recomputing z) -- negative twins.                                               *)
+(* MUT (negative twins): "none" | "no_recompute" (a deletion never lowers a stored         *)
+(* maximum -> too high) | "no_walk" (insertion without the upward maximum walk) |           *)
+(* "skip_left" (the exact walk leaves out the key node's left subtree) | "ge" (>= for >).   *)
 EXTENDS TreeOps, TLC
 
 CONSTANTS KEYS,        \* set of positive integer keys
